@@ -1,6 +1,6 @@
 (* Properties/C11.v — property C11: profiles condense, compare and add by ballot content.
-   Vocabulary ([same_content], [wtof], [distinct_contents], [unscored], [no_mixed], [all_pos],
-   [nonzero_contents], [anonymous]) is defined in Spec/Content.v; proofs are in
+   Vocabulary ([same_content], [wtof], [distinct_contents], [anonymous]) is defined in
+   Spec/Content.v; proofs are in
    Proofs/Lib_content.v, Proofs/C11_condense.v, Proofs/C11_profile.v.
 
    Not covered here (see DESIGN.md, C11): the int/float/Fraction conversion of weights and scores
@@ -125,69 +125,25 @@ Theorem c11_dup_cands_rejected :
     (NoDup cs -> exists p, mk_profile cand ceqb bs cs = inl p).
 Proof. exact (mk_profile_dup_full cand ceqb ceqb_spec). Qed.
 
-(* 7. profile equality.  With positive weights, and provided no ranking is cast both with and
-      without scores (in either profile), the coded __eq__ is exactly "same weight for every
-      content".  *)
+(* 7. profile equality: for ALL profiles, the coded __eq__ holds exactly when both profiles give
+      every (ranking, scores) content the same total weight *)
 Theorem c11_eq_iff :
   forall p q : profile cand,
-    (forall b, In b (ballots p) -> 0 < wt b) ->
-    (forall b, In b (ballots q) -> 0 < wt b) ->
-    (forall x y, In x (ballots p ++ ballots q) -> In y (ballots p ++ ballots q) ->
-       ranking_eqb cand ceqb (rk x) (rk y) = true -> sc x = [] -> sc y = []) ->
-    (profile_eq cand ceqb p q = true <->
-     forall k, wtof cand ceqb k (ballots p) == wtof cand ceqb k (ballots q)).
+    profile_eq cand ceqb p q = true <->
+    forall k, wtof cand ceqb k (ballots p) == wtof cand ceqb k (ballots q).
 Proof. exact (profile_eq_iff cand ceqb ceqb_spec). Qed.
 
-(* the same under the weaker weight hypothesis "no occurring content has total weight 0" *)
-Theorem c11_eq_iff_nonzero :
-  forall p q : profile cand,
-    (forall b, In b (ballots p) -> ~ wtof cand ceqb b (ballots p) == 0) ->
-    (forall b, In b (ballots q) -> ~ wtof cand ceqb b (ballots q) == 0) ->
-    (forall x y, In x (ballots p ++ ballots q) -> In y (ballots p ++ ballots q) ->
-       ranking_eqb cand ceqb (rk x) (rk y) = true -> sc x = [] -> sc y = []) ->
-    (profile_eq cand ceqb p q = true <->
-     forall k, wtof cand ceqb k (ballots p) == wtof cand ceqb k (ballots q)).
-Proof. exact (profile_eq_iff_nonzero cand ceqb ceqb_spec). Qed.
-
-(* the two directions separately, each with only the hypothesis it needs *)
-Theorem c11_eq_sound :
-  forall p q : profile cand,
-    (forall x y, In x (ballots p ++ ballots q) -> In y (ballots p ++ ballots q) ->
-       ranking_eqb cand ceqb (rk x) (rk y) = true -> sc x = [] -> sc y = []) ->
-    profile_eq cand ceqb p q = true ->
-    forall k, wtof cand ceqb k (ballots p) == wtof cand ceqb k (ballots q).
-Proof. exact (profile_eq_sound cand ceqb ceqb_spec). Qed.
-
-Theorem c11_eq_complete :
-  forall p q : profile cand,
-    (forall b, In b (ballots p) -> ~ wtof cand ceqb b (ballots p) == 0) ->
-    (forall b, In b (ballots q) -> ~ wtof cand ceqb b (ballots q) == 0) ->
-    (forall k, wtof cand ceqb k (ballots p) == wtof cand ceqb k (ballots q)) ->
-    profile_eq cand ceqb p q = true.
-Proof. exact (profile_eq_complete cand ceqb ceqb_spec). Qed.
-
-(* what the coded __eq__ decides in general (mixed scored/unscored profiles included): every
-   content of either profile has, in the other profile, the same weight either on the same
-   content or on the score-less ballot with the same ranking (the left operand of Ballot.__eq__
-   with no scores matches any scores). *)
-Theorem c11_eq_char :
-  forall p q : profile cand,
-    (forall b, In b (ballots p) -> ~ wtof cand ceqb b (ballots p) == 0) ->
-    (forall b, In b (ballots q) -> ~ wtof cand ceqb b (ballots q) == 0) ->
-    (profile_eq cand ceqb p q = true <->
-     (forall b, In b (ballots p) ->
-        wtof cand ceqb b (ballots q) == wtof cand ceqb b (ballots p) \/
-        wtof cand ceqb (unscored cand b) (ballots q) == wtof cand ceqb b (ballots p)) /\
-     (forall b, In b (ballots q) ->
-        wtof cand ceqb b (ballots p) == wtof cand ceqb b (ballots q) \/
-        wtof cand ceqb (unscored cand b) (ballots p) == wtof cand ceqb b (ballots q))).
-Proof. exact (profile_eq_char cand ceqb ceqb_spec). Qed.
-
-(* 9. the coded __eq__ is reflexive and symmetric on all profiles *)
+(* 9. hence it is an equivalence relation on all profiles *)
 Theorem c11_eq_refl_sym :
   (forall p : profile cand, profile_eq cand ceqb p p = true) /\
   (forall p q : profile cand, profile_eq cand ceqb p q = profile_eq cand ceqb q p).
 Proof. exact (conj (profile_eq_refl cand ceqb ceqb_spec) (profile_eq_sym cand ceqb)). Qed.
+
+Theorem c11_eq_trans :
+  forall p q r : profile cand,
+    profile_eq cand ceqb p q = true -> profile_eq cand ceqb q r = true ->
+    profile_eq cand ceqb p r = true.
+Proof. exact (profile_eq_trans cand ceqb ceqb_spec). Qed.
 
 (* 8. adding profiles never fails, concatenates the ballots, adds the weight of every content
       and the total weight, and recomputes the candidates from the cast ballots *)
@@ -207,26 +163,29 @@ Proof. exact (profile_add_total_ex cand ceqb). Qed.
 
 End C11.
 
-(* ---------- boundaries of the equality clause, refuted on concrete inputs ---------- *)
+(* ---------- former boundary cases of __eq__ (before its repair), now positive examples ---------- *)
 
-(* without the non-zero-weight hypothesis: an extra ballot of weight 0 leaves every content
-   weight unchanged but makes the profiles compare unequal *)
-Theorem c11_eq_zero_weight_refuted :
-  exists p q : profile positive,
-    (forall k, wtof positive Pos.eqb k (ballots p) == wtof positive Pos.eqb k (ballots q)) /\
-    profile_eq positive Pos.eqb p q = false.
-Proof. exact eq_zero_weight_refuted. Qed.
+(* an extra ballot of weight 0 does not make profiles unequal *)
+Example c11_eq_zero_weight_example :
+  profile_eq positive Pos.eqb
+    (mkProfile [mkBallot [[1%positive]] 1 [] None None] [1%positive])
+    (mkProfile [mkBallot [[1%positive]] 1 [] None None; mkBallot [[2%positive]] 0 [] None None]
+               [1%positive]) = true.
+Proof. exact eq_zero_weight_example. Qed.
 
-(* without the no-mixed hypothesis: positive weights, profiles compare equal, yet a scored
-   content has weight 1 in one and 0 in the other (the unscored ballot with the same ranking
-   and weight acts as a wild-card) *)
-Theorem c11_eq_wildcard_refuted :
-  exists p q : profile positive,
-    (forall b, In b (ballots p) -> 0 < wt b) /\
-    (forall b, In b (ballots q) -> 0 < wt b) /\
-    profile_eq positive Pos.eqb p q = true /\
-    exists k, ~ wtof positive Pos.eqb k (ballots p) == wtof positive Pos.eqb k (ballots q).
-Proof. exact eq_wildcard_refuted. Qed.
+(* same rankings and weights, different scores: unequal, and a content weight differs; a
+   score-less ballot is no longer a wild-card *)
+Example c11_eq_wildcard_example :
+  profile_eq positive Pos.eqb
+    (mkProfile [mkBallot [[1%positive]] 1 [(1%positive, 1)] None None;
+                mkBallot [[1%positive]] 1 [] None None] [1%positive])
+    (mkProfile [mkBallot [[1%positive]] 1 [(1%positive, 2)] None None;
+                mkBallot [[1%positive]] 1 [] None None] [1%positive]) = false /\
+  ~ wtof positive Pos.eqb (mkBallot [[1%positive]] 1 [(1%positive, 1)] None None)
+      [mkBallot [[1%positive]] 1 [(1%positive, 1)] None None; mkBallot [[1%positive]] 1 [] None None]
+    == wtof positive Pos.eqb (mkBallot [[1%positive]] 1 [(1%positive, 1)] None None)
+      [mkBallot [[1%positive]] 1 [(1%positive, 2)] None None; mkBallot [[1%positive]] 1 [] None None].
+Proof. exact eq_wildcard_example. Qed.
 
 Print Assumptions c11_key_match_is_same_content.
 Print Assumptions c11_same_content_equiv.
@@ -241,15 +200,10 @@ Print Assumptions c11_cast_cands.
 Print Assumptions c11_total_wt.
 Print Assumptions c11_dup_cands_rejected.
 Print Assumptions c11_eq_iff.
-Print Assumptions c11_eq_iff_nonzero.
-Print Assumptions c11_eq_sound.
-Print Assumptions c11_eq_complete.
-Print Assumptions c11_eq_char.
 Print Assumptions c11_eq_refl_sym.
+Print Assumptions c11_eq_trans.
 Print Assumptions c11_add.
 Print Assumptions c11_add_total.
-Print Assumptions c11_eq_zero_weight_refuted.
-Print Assumptions c11_eq_wildcard_refuted.
 
 (* ---------- non-vacuity: concrete inputs (cand := positive) ---------- *)
 Section Examples.
@@ -270,24 +224,12 @@ Example ex_condense :
   [ B [[1]; [2]] (1 + (1#2)) []; B [[2]] 2 [(2, 1%Q)]; B [[1; 2]] (1 + 3) [] ].
 Proof. vm_compute. reflexivity. Qed.
 
-(* hypotheses of c11_eq_iff hold for two differently ordered/grouped profiles, which compare equal *)
-Example ex_eq_hyps :
-  (forall b, In b bsA -> (0 < wt b)%Q) /\
-  (forall b, In b bsA' -> (0 < wt b)%Q) /\
-  (forall x y, In x (bsA ++ bsA') -> In y (bsA ++ bsA') ->
-     ranking_eqb positive Pos.eqb (rk x) (rk y) = true -> sc x = [] -> sc y = []) /\
-  profile_eq positive Pos.eqb (mkProfile bsA [1; 2]) (mkProfile bsA' [1; 2]) = true.
-Proof.
-  split; [|split; [|split]].
-  - intros b Hb. cbn in Hb. repeat (destruct Hb as [<-|Hb]; [reflexivity|]). destruct Hb.
-  - intros b Hb. cbn in Hb. repeat (destruct Hb as [<-|Hb]; [reflexivity|]). destruct Hb.
-  - intros x y Hx Hy. cbn in Hx, Hy.
-    repeat (destruct Hx as [<-|Hx]);
-      repeat (destruct Hy as [<-|Hy]);
-      try contradiction;
-      intros R S; try reflexivity; try (vm_compute in R; discriminate R); try discriminate S.
-  - vm_compute. reflexivity.
-Qed.
+(* two differently ordered/grouped profiles (one with ids) compare equal; dropping a ballot
+   makes them unequal *)
+Example ex_eq :
+  profile_eq positive Pos.eqb (mkProfile bsA [1; 2]) (mkProfile bsA' [1; 2]) = true /\
+  profile_eq positive Pos.eqb (mkProfile bsA [1; 2]) (mkProfile (tl bsA') [1; 2]) = false.
+Proof. split; vm_compute; reflexivity. Qed.
 
 Example ex_mk_profile :
   mk_profile positive Pos.eqb bsA [] = inl (mkProfile bsA [2; 1]) /\
